@@ -115,21 +115,27 @@ func newWorld(t *testing.T, sc *Scenario, seed int64) *world {
 	c := chain.New(t, sc.N, seed)
 	ctr := c.Compile("nns")
 	c.Deploy(ctr, nil)
-	w := &world{t: t, c: c, nns: ctr.Hash, sc: sc, memo: map[string]bool{}, base: map[string]bool{}}
-	cmt := []neotest.Signer{c.Cmt}
-	must := func(r *chain.Result, what string) {
-		require.True(t, r.Halt, "setup %s: %s", what, r.Fault)
+	return &world{t: t, c: c, nns: ctr.Hash, sc: sc, memo: map[string]bool{}, base: map[string]bool{}}
+}
+
+// setupSteps are the registrations every scenario starts with. They are executed as recorded (and
+// judged) real transactions: a contract that refuses one of these plain values is a finding, not a
+// harness failure.
+func setupSteps(mode string) []Step {
+	C := []string{"CMT"}
+	out := []Step{
+		{Act: "registerTLD", S: C, Name: str(tldBase), Str: str(tldBase)},
+		{Act: "register", S: C, Name: str(recAdd), Str: str(recAdd)},
 	}
-	must(c.Run(w.nns, cmt, "registerTLD", append([]any{tldBase}, regArgs...)...), "registerTLD")
-	must(c.Run(w.nns, cmt, "register", append([]any{recAdd, c.Cmt.ScriptHash()}, regArgs...)...), "register r")
-	if sc.Mode == "call" {
-		must(c.Run(w.nns, cmt, "register", append([]any{recSet, c.Cmt.ScriptHash()}, regArgs...)...), "register s")
-		must(c.Run(w.nns, cmt, "addRecord", recSet, typA, "1.2.3.4"), "A")
-		must(c.Run(w.nns, cmt, "addRecord", recSet, typAAAA, "2001:200::1"), "AAAA")
-		must(c.Run(w.nns, cmt, "addRecord", recSet, typCNAME, "x.abc"), "CNAME")
-		must(c.Run(w.nns, cmt, "addRecord", recSet, typTXT, "t"), "TXT")
+	if mode == "call" {
+		out = append(out,
+			Step{Act: "register", S: C, Name: str(recSet), Str: str(recSet)},
+			Step{Act: "addRecord", S: C, Name: str(recSet), Typ: typA, Str: str("8.8.4.4")},
+			Step{Act: "addRecord", S: C, Name: str(recSet), Typ: typAAAA, Str: str("2a00:1450:4001:81b::200e")},
+			Step{Act: "addRecord", S: C, Name: str(recSet), Typ: typCNAME, Str: str("www.abc")},
+			Step{Act: "addRecord", S: C, Name: str(recSet), Typ: typTXT, Str: str("t")})
 	}
-	return w
+	return out
 }
 
 func (w *world) signers(S []string) []neotest.Signer {
@@ -343,6 +349,9 @@ func (w *world) callStep(st Step) chain.Rec {
 		rec["res"], rec["ret"], rec["fault"] = "HALT", retString(items), ""
 	}
 	rec["why"] = classify(st.Act, rec["fault"].(string))
+	if rec["why"] != "other" {
+		rec["fault"] = "" // keeps the trace small; the text matters only when it could not be classified
+	}
 	return rec
 }
 
@@ -468,13 +477,25 @@ func expand(it Item) []Step {
 
 func runScenario(t *testing.T, rec *chain.Recorder, idx int, sc *Scenario, seed int64) {
 	w := newWorld(t, sc, seed+int64(idx))
-	obs := w.observe()
-	for _, n := range obs["names"].([][]int) {
-		w.base[string(bs(n))] = true
-	}
 	tid := strconv.Itoa(idx)
-	rec.Emit(resetRec(tid, sc, obs))
+	rec.Emit(resetRec(tid, sc, w.observe()))
+	tx := func(st Step, src string) map[string]any {
+		r := w.txStep(st)
+		obs := w.observe()
+		r["obs"] = obs
+		r["t"] = tid
+		r["src"] = src
+		rec.Emit(r)
+		return obs
+	}
+	var obs map[string]any
+	for _, st := range setupSteps(sc.Mode) {
+		obs = tx(st, "setup")
+	}
 	if sc.Mode == "call" {
+		for _, n := range obs["names"].([][]int) {
+			w.base[string(bs(n))] = true
+		}
 		k := 0
 		steps := sc.Steps
 		for _, it := range sc.Items {
@@ -490,10 +511,7 @@ func runScenario(t *testing.T, rec *chain.Recorder, idx int, sc *Scenario, seed 
 		return
 	}
 	for _, st := range sc.Steps {
-		r := w.txStep(st)
-		r["obs"] = w.observe()
-		r["t"] = tid
-		rec.Emit(r)
+		tx(st, sc.Src)
 	}
 }
 
@@ -783,6 +801,29 @@ func genTXT(r *rand.Rand) []string {
 	return out
 }
 
+// genRandom: random strings, unstructured (printable / reduced alphabets / all byte values).
+func genRandom(r *rand.Rand, n int) []string {
+	alphabets := []string{"az09-.A_+ ", "0129fF:.+-", "abcdefghijklmnopqrstuvwxyz0123456789-.", "0123456789.", "0123456789abcdef:", ""}
+	var out []string
+	for len(out) < n {
+		al := alphabets[r.Intn(len(alphabets))]
+		l := r.Intn(24)
+		if r.Intn(10) == 0 {
+			l = r.Intn(300)
+		}
+		b := make([]byte, l)
+		for i := range b {
+			if al == "" {
+				b[i] = byte(r.Intn(256))
+			} else {
+				b[i] = al[r.Intn(len(al))]
+			}
+		}
+		out = append(out, string(b))
+	}
+	return out
+}
+
 func items(k string, ss []string) []Item {
 	out := make([]Item, len(ss))
 	for i, s := range ss {
@@ -802,6 +843,8 @@ func genCall(r *rand.Rand, scale int) []*Scenario {
 	add("gen:v4", items("A", genV4(r, 600*scale)))
 	add("gen:v6", items("6", genV6(r, 900*scale)))
 	add("gen:txt", append(items("T", genTXT(r)), items("O", []string{"x", "1.2.3.4", ""})...))
+	rs := genRandom(r, 400*scale)
+	add("gen:random", append(append(items("N", rs), items("D", rs)...), items("T", rs)...))
 	return out
 }
 
